@@ -221,6 +221,31 @@ func rateLookup(c rateCase, path string) (ev rateEvent) {
 		inv := &bill.Invoice{Regime: tax.WithRegime(lcode(c.CC)), IssueDate: other, ValueDate: &date, Lines: []*bill.Line{line()}}
 		inv.SetTags(tags...)
 		err = inv.Calculate()
+	case "invoice-customer":
+		// a supplier of another regime invoicing with the customer's rates: the table is the customer's
+		sup := "DE"
+		if c.CC == "DE" {
+			sup = "ES"
+		}
+		inv := &bill.Invoice{Regime: tax.WithRegime(lcode(sup)), IssueDate: date, Lines: []*bill.Line{line()},
+			Supplier: &org.Party{Name: "S", TaxID: &tax.Identity{Country: lcode(sup)}},
+			Customer: &org.Party{Name: "C", TaxID: &tax.Identity{Country: lcode(c.CC)}}}
+		inv.SetTags(append(append([]cbc.Key{}, tags...), tax.TagCustomerRates)...)
+		err = inv.Calculate()
+	case "delivery-value":
+		dlv := &bill.Delivery{Regime: tax.WithRegime(lcode(c.CC)), IssueDate: other, ValueDate: &date, Lines: []*bill.Line{line()}}
+		dlv.SetTags(tags...)
+		err = dlv.Calculate()
+	case "delivery-issue":
+		dlv := &bill.Delivery{Regime: tax.WithRegime(lcode(c.CC)), IssueDate: date, Lines: []*bill.Line{line()}}
+		dlv.SetTags(tags...)
+		err = dlv.Calculate()
+	case "order-issue":
+		ord := &bill.Order{Regime: tax.WithRegime(lcode(c.CC)), IssueDate: date, Lines: []*bill.Line{line()}}
+		od := cal.MakeDate(2001, 1, 1)
+		ord.OperationDate = &od
+		ord.SetTags(tags...)
+		err = ord.Calculate()
 	case "order-value":
 		ord := &bill.Order{Regime: tax.WithRegime(lcode(c.CC)), IssueDate: other, ValueDate: &date, Lines: []*bill.Line{line()}}
 		od := cal.MakeDate(2001, 1, 1)
@@ -257,7 +282,7 @@ func ratesRun(seed int64, nrand int, in, out string) error {
 	if err != nil {
 		return err
 	}
-	paths := []string{"direct", "invoice-issue", "invoice-value", "order-value", "invoice-preset"}
+	paths := []string{"direct", "invoice-issue", "invoice-value", "order-value", "invoice-preset", "invoice-customer", "delivery-value", "delivery-issue", "order-issue"}
 	emit := func(c rateCase) {
 		for _, p := range paths {
 			w.Emit(rateLookup(c, p))
